@@ -36,7 +36,9 @@ TOKEN_LEAVES = ["Backslash", "Newline", "Dollar"]
 UNARY1 = ["optional", "at_least2", "capture", "named_capture", "group", "group_i", "match_at_start", "match_at_line_end"]
 BINARY1 = ["either", "concat", "followed_by", "not_preceded_by", "enclose"]
 CONTEXTS = ["concat_right", "concat_left", "either_right", "either_left", "optional", "exactly2", "at_least3", "capture", "followed_by",
-            "preceded_by_it", "match_at_end", "enclose"]
+            "preceded_by_it", "match_at_end", "enclose", "capture_named", "group", "group_i"]
+GROUP_CONTEXTS = {"capture", "capture_named", "group", "group_i"}
+GROUP_OPS = {"capture", "named_capture", "group", "group_i"}
 REPEATING = {"exactly2", "at_least3"}
 ASSERTING1 = {"match_at_start", "match_at_line_end", "followed_by"}   # depth-1 ops that make E *directly* an anchor / positive look-around
 
@@ -94,6 +96,12 @@ def apply2(it, model, ctxname, e, z):
         return _call(it, model, e, "at_least", 3, False)
     if ctxname == "capture":
         return _call(it, model, e, "capture")
+    if ctxname == "capture_named":
+        return _call(it, model, e, "capture", "h")
+    if ctxname == "group":
+        return _call(it, model, e, "group")
+    if ctxname == "group_i":
+        return _call(it, model, e, "group", True)
     if ctxname == "followed_by":
         return _call(it, model, e, "followed_by", z)
     if ctxname == "preceded_by_it":
@@ -111,6 +119,15 @@ def ref2(ctxname, E, Z, op1=None, X=None):
         return E                       # "creating a capturing group out of a capturing group does nothing"
     if ctxname == "capture" and op1 == "group":
         return f"({X})"                # a non-capturing group is converted
+    if ctxname == "capture_named":
+        if op1 in ("capture", "named_capture", "group"):
+            return f"(?P<h>{X})"       # names / renames / converts the outermost group only
+        return f"(?P<h>{E})"
+    if ctxname in ("group", "group_i"):
+        opening = "(?i:" if ctxname == "group_i" else "(?:"
+        if op1 in GROUP_OPS:
+            return f"{opening}{X})"    # un-captures / re-flags the outermost group only
+        return f"{opening}{E})"
     return {
         "concat_right": f"{g(E)}{g(Z)}", "concat_left": f"{g(Z)}{g(E)}", "either_right": f"{g(E)}|{g(Z)}", "either_left": f"{g(Z)}|{g(E)}",
         "optional": f"{g(E)}?", "exactly2": f"{g(E)}{{2}}", "at_least3": f"{g(E)}{{3,}}?", "capture": f"({E})",
@@ -246,7 +263,8 @@ def describe(rec, c=None):
     return {"concat_right": f"concat({e}, 'z')", "concat_left": f"concat('z', {e})", "either_right": f"either({e}, 'z')",
             "either_left": f"either('z', {e})", "optional": f"optional({e})", "exactly2": f"exactly({e}, 2)",
             "at_least3": f"at_least({e}, 3, lazy)", "capture": f"capture({e})", "followed_by": f"followed_by({e}, 'z')",
-            "preceded_by_it": f"followed_by('z', {e})", "match_at_end": f"match_at_end({e})", "enclose": f"enclose({e}, 'z')"}[c]
+            "preceded_by_it": f"followed_by('z', {e})", "match_at_end": f"match_at_end({e})", "enclose": f"enclose({e}, 'z')",
+            "capture_named": f"capture({e}, 'h')", "group": f"group({e})", "group_i": f"group({e}, True)"}[c]
 
 
 def contains_assertion(rec):
@@ -341,3 +359,33 @@ def judge_c09(ctx, model, recs):
 
 def _meth(op):
     return {"at_least2": "at_least", "named_capture": "capture", "group_i": "group"}.get(op, op)
+
+
+def judge_c08(ctx, model, recs):
+    """R-GROUP-REAL: capture / group around library-built expressions, with the classifier interpreted: group count,
+    names and structure are what the expression spells out (literals containing '(' ')' '?:' '?P<' included)."""
+    n = 0
+    cap = model.method(PRE, "Pregex", "capture")
+    grp = model.method(PRE, "Pregex", "group")
+    for r in recs:
+        if "incomplete" in r or "leaf_error" in r or "E_raise" in r:
+            continue
+        for c in GROUP_CONTEXTS:
+            k, v = r["ctx"].get(c, (None, None))
+            if k is None:
+                continue
+            n += 1
+            inp = describe(r, c)
+            f = cap if c.startswith("capture") else grp
+            ctx.instance("R-GROUP-REAL", key=inp, sample=f"{inp} -> {v!r}" if r["op"] in GROUP_OPS else None)
+            if k != "text":
+                ctx.violation("R-GROUP-REAL", f.relpath, f.short, "grouping fails", "capture / group raises on a library-built operand",
+                              f.node.lineno, inp=inp, detail=str(v))
+                continue
+            ok, why = B.same_structure(v, ref2(c, r["E"], r["Z"], r["op"], r["X"]))
+            if ok is False:
+                ctx.violation("R-GROUP-REAL", f.relpath, f.short,
+                              f"{c.split('_')[0]} of a {'group' if r['op'] in GROUP_OPS else r['op'] + '-expression'}",
+                              "the capturing-group structure is not what the expression spells out (classifier and group rewriting disagree)",
+                              f.node.lineno, inp=inp, detail=why)
+    return n
